@@ -248,7 +248,7 @@ def rule_cast(E, R):
     h = E.hir(CMP_COMPILE)
     nested_expect = {}
     if h:
-        for n, st in walk_arms(h["body"]):
+        for n, st in sem.sem_walk(E, h):
             if n.get("k") == "SItem" and n.get("ik") == "Impl" and n.get("trait", "").endswith("Compare"):
                 rv = arm_variants(st, "RhsValue") or arm_variants(st, "RhsValues")
                 cmp_ = arm_variants(st, "ComparisonOpExpr")
